@@ -250,6 +250,17 @@ def build_network(cfg):
     return net, refused, None
 
 
+def cxx_standard(files):
+    """-std flag the generated build prescribes (top-level CMakeLists.txt: CMAKE_CXX_STANDARD, CMAKE_CXX_EXTENSIONS)"""
+    txt = files.get("CMakeLists.txt", "")
+    m = re.search(r"set\(\s*CMAKE_CXX_STANDARD\s+(\d+)\s*\)", txt)
+    if not m:
+        raise HarnessError("generated CMakeLists.txt sets no CMAKE_CXX_STANDARD")
+    ext = re.search(r"set\(\s*CMAKE_CXX_EXTENSIONS\s+(\w+)\s*\)", txt)
+    gnu = not (ext and ext.group(1).upper() in ("OFF", "FALSE", "0", "NO"))
+    return f"-std={'gnu' if gnu else 'c'}++{m.group(1)}"
+
+
 def cmake_list(text, name, lists):
     """the value of one list variable after the set()/list(APPEND) commands of a generated CMakeLists.txt, with
     if(NOT "X" IN_LIST var) / if("X" IN_LIST var) blocks evaluated against `lists`; other commands are skipped"""
@@ -320,9 +331,10 @@ def run_cfg(cfg):
         units = [(rel, []) for rel in sorted(files) if rel.startswith("src/") and rel.endswith(".cpp")]
         # the python-module build (-DPYMODULE) of the driver: the pybind11 block names members of Naunet / NaunetData
         units += [(rel, ["-DPYMODULE", "-DPYMODNAME=pymod"]) for rel, _ in list(units) if rel.endswith("src/naunet.cpp")]
+        std = cxx_standard(files) if cfg["backend"] != "cusparse" else "-std=c++17"  # the language level the generated build prescribes
         for rel, defs in units:
             nfiles += 1
-            rc, so, se = runcmd([GXX, "-std=c++17", "-fsyntax-only", "-w", "-fmax-errors=0", "-fdiagnostics-plain-output", *cuda, *defs, "-I", str(SHIM), "-I", "include", rel], cwd=str(d), timeout=300)
+            rc, so, se = runcmd([GXX, std, "-fsyntax-only", "-w", "-fmax-errors=0", "-fdiagnostics-plain-output", *cuda, *defs, "-I", str(SHIM), "-I", "include", rel], cwd=str(d), timeout=300)
             if rc == 0:
                 continue
             seen = set()
@@ -364,7 +376,7 @@ def run_cfg(cfg):
                     viols.append((f"C10:build-lists-missing-source:{t_}", f"{label}: src/CMakeLists.txt lists the object target {t_} but no src/{t_}.cpp is generated", cfg))
                 else:
                     srcs.append(f"src/{t_}.cpp")
-            rc, so, se = runcmd([GXX, "-std=c++17", "-w", "-O0", "-I", str(SHIM), "-I", "include", *srcs, *extra, "verif_main.cpp", "-o", "linked"], cwd=str(d), timeout=600)
+            rc, so, se = runcmd([GXX, std, "-w", "-O0", "-I", str(SHIM), "-I", "include", *srcs, *extra, "verif_main.cpp", "-o", "linked"], cwd=str(d), timeout=600)
             nfiles += 1
             if rc != 0:
                 seen = set()
@@ -424,7 +436,7 @@ def run_test_programs(arg):
         for rel in progs:
             for defs in ([], ["-DNAUNET_DEBUG"]):
                 n += 1
-                rc, so, se = runcmd([GXX, "-std=c++17", "-fsyntax-only", "-w", "-fmax-errors=0", "-fdiagnostics-plain-output", *defs, "-I", str(SHIM), "-I", "include", rel], cwd=str(d), timeout=300)
+                rc, so, se = runcmd([GXX, cxx_standard(files), "-fsyntax-only", "-w", "-fmax-errors=0", "-fdiagnostics-plain-output", *defs, "-I", str(SHIM), "-I", "include", rel], cwd=str(d), timeout=300)
                 if rc == 0:
                     continue
                 seen = set()
@@ -467,6 +479,7 @@ def run(ctx):
         ctx.absorb(viols)
     ctx.assumptions += [
         "the generated example programs tests/*.cpp are compiled (-fsyntax-only) against the rendered headers of every back-end, with and without -DNAUNET_DEBUG (what the generated CMake project adds for a Debug build)",
+        "every unit is compiled at the language level the generated top-level CMakeLists.txt prescribes (CMAKE_CXX_STANDARD / CMAKE_CXX_EXTENSIONS -> -std=c++14 on this tree)",
         "the SUNDIALS/Boost API is a hand-written shim (no SUNDIALS/Boost in the image); a diagnostic naming a shim/libc identifier is a harness error, never a violation",
         "for the full probe networks (quick: every second configuration) the translation units are also compiled and linked with an empty main and trivial CVODE entry points: an undefined or doubly defined symbol of the generated code is a violation (closed program)",
         "only diagnostics about undeclared / redeclared / redefined names are judged here; other compiler errors are counted (other_diagnostics) and belong to C05/C16",
